@@ -1305,7 +1305,14 @@ class Parser:
         if data.get("message_defs") is not None:
             for name, mdf in data["message_defs"].items():
                 self.handle_message_def(name, mdf)
+            # _RESERVED_ may appear once per file: accumulate the ids instead of replacing them
+            reserved = self.yaml_dict["message_defs"].get("_RESERVED_")
             self.yaml_dict["message_defs"].update(data["message_defs"])
+            if reserved is not None and "_RESERVED_" in data["message_defs"]:
+                self.yaml_dict["message_defs"]["_RESERVED_"] = dict(
+                    id=list(reserved["id"])
+                    + list(data["message_defs"]["_RESERVED_"]["id"])
+                )
 
     def check_key_value_separation(self, text: str):
         for n, line in enumerate(text.splitlines(), start=1):
